@@ -1290,7 +1290,7 @@ bool Annotator::AnnotatorImpl::validItem(const AnyCellmlElementPtr &item)
         break;
     case CellmlElementType::UNIT: {
         auto unitsItem = item->unitsItem();
-        result = (unitsItem != nullptr) && (unitsItem->units() != nullptr);
+        result = (unitsItem != nullptr) && unitsItem->isValid();
     } break;
     case CellmlElementType::UNITS:
         result = item->units() != nullptr;
